@@ -244,3 +244,24 @@ PROPS['C12'] = {
 MANIFEST_TEXT['C12'] = {'claim': 'complete enumeration of all five tables (inverse laws, agreement with three independent vendored sources, audit ids) plus generated alias spellings and cross-process lookup digests',
                         'note': 'independent sources are Linux 6.1 UAPI headers (x86, asm-generic), Go syscall and x/sys v0.48.0; newer entries are checked for consistency only',
                         'technique': 'exhaustive enumeration against vendored oracle tables + property-based testing (rapid) for spellings + cross-process differential'}
+
+PROPS['C19'] = {
+    'level': 'exploration',
+    'exhaustive': True,
+    'rule': ('complete enumeration of the GOOS/GOARCH pairs of `go tool dist list`: for every pair on which the library builds, an assertion package that only compiles when each '
+             'exposed/aliased constant (8 actions, 2 filter flags, EPERM, ENOSYS, PR_SET_NO_NEW_PRIVS, 2 seccomp modes, x32 bit) equals the vendored UAPI value is built under that '
+             'target\'s build context (ENOSYS: 89 on linux/mips*, 38 elsewhere); arch.GetInfo(GOARCH) - the call Assemble makes on such a host - must fail exactly for the GOARCH values '
+             'without tables; transplant kind: the non-Linux source files are compiled for the host with their build constraints neutralised and run: generated policies must compile to '
+             'byte-identical programs with both constant sets, Supported() false, LoadFilter/SetNoNewPrivs change no process state and issue no seccomp/prctl system call (strace); '
+             'a target is non-trivial iff it is not linux/amd64; a transplant policy iff it contains an errno action or is for x86_64; distinct by hash of the case JSON'),
+    'assumptions': ['non-Linux and non-x86 code is compiled for its target but executed only on the host (source transplant); a miscompilation by another back end is out of reach',
+                    'MIPS errno value (ENOSYS=89) is a literature value: the image only ships x86 and asm-generic headers'],
+    'required_classes': {'all': ['target', 'non-linux-target', 'linux-mips-errno-table', 'goarch-without-tables', 'goarch-with-tables', 'transplant', 'transplant-under-strace']},
+    'units': [
+        {'test': 'TestC19CrossBuild', 'timeout': {'quick': 900, 'thorough': 900}},
+        {'test': 'TestC19Transplant', 'timeout': {'quick': 600, 'thorough': 900}},
+    ],
+}
+MANIFEST_TEXT['C19'] = {'claim': 'compile-time constant assertions built under every GOOS/GOARCH pair of the toolchain (complete enumeration); unsupported-architecture behaviour for every GOARCH without tables; non-Linux stub sources transplanted to the host and executed against generated policies',
+                        'note': 'compiler-decided equality per build context; stubs executed on the host only',
+                        'technique': 'exhaustive configuration enumeration with compile-time assertions + differential property test (rapid) on transplanted sources'}
